@@ -81,6 +81,35 @@ theorem checker_sound_init (it : Item) (cert : Cert) (h : ownCheck it cert = tru
 theorem while_witness_accepted_on_current_tree :
     ownCheck Now.wWhile Now.wWhileCert = true := by decide +kernel
 
+/-- After the fix (own frame for a match guard) the MIR of the guard witness is accepted:
+    on the `None` path nothing of the guard is released any more. -/
+theorem match_guard_witness_accepted_on_current_tree :
+    ownCheck Now.wMatchGuard Now.wMatchGuardCert = true := by decide +kernel
+
+/-- After the same fix the temporaries of the unreachable copy of a guard (behind an unguarded
+    arm of its chain) are released inside that dead block, which is eliminated with them. -/
+theorem dead_guard_witness_accepted_on_current_tree :
+    ownCheck Now.wDeadGuard Now.wDeadGuardCert = true := by decide +kernel
+
+/-- After the fix (bindings stay on the stack while the guard is lowered) a `return` inside a
+    guard releases the arm's bindings. -/
+theorem guard_return_witness_accepted_on_current_tree :
+    ownCheck Now.wGuardReturn Now.wGuardReturnCert = true := by decide +kernel
+
+/-- After the fix (a record literal is put together from its evaluated fields) an early exit in
+    a later field releases the earlier fields and no half-built record. -/
+theorem aggregate_witness_accepted_on_current_tree :
+    ownCheck Now.wAggregate Now.wAggregateCert = true := by decide +kernel
+
+/-- After the fix (arguments are live until the call is built) an early exit in a later
+    argument releases the earlier ones. -/
+theorem call_arg_witness_accepted_on_current_tree :
+    ownCheck Now.wCallArg Now.wCallArgCert = true := by decide +kernel
+
+/-- The same for the list handle a list literal passes to `push`. -/
+theorem list_literal_witness_accepted_on_current_tree :
+    ownCheck Now.wListLiteral Now.wListLiteralCert = true := by decide +kernel
+
 /-- non-vacuity of `checker_sound`: its hypothesis holds on real compiler output,
     and the conclusion then speaks about a run of 40 blocks -/
 example : match runN Now.wWhile (fun i => i % 2) 40 (entryLabel Now.wWhile)
@@ -149,5 +178,27 @@ theorem list_literal_leaks_on_pinned_tree :
 
 theorem list_literal_rejected_on_pinned_tree : ∀ cert, ownCheck Frozen.wListLiteral cert = false :=
   rejected_of_failing_run _ _ _ _ _ list_literal_leaks_on_pinned_tree
+
+/-- a `return` inside a match guard: the arm's binding, popped from the frame before the guard
+    was lowered, is still owned at the exit -/
+theorem guard_return_leaks_on_pinned_tree :
+    (runN Frozen.wGuardReturn (fun _ => 0) 14 (entryLabel Frozen.wGuardReturn)
+      (initC Frozen.wGuardReturn (fun _ => 0))).failsWith .leak = true := by decide +kernel
+
+theorem guard_return_rejected_on_pinned_tree : ∀ cert, ownCheck Frozen.wGuardReturn cert = false :=
+  rejected_of_failing_run _ _ _ _ _ guard_return_leaks_on_pinned_tree
+
+/-- `match x { None => 1, _ if s == "lit1" => 2, _ => 3 }`: the chain of `None` lowers the guard
+    a second time behind the unguarded arm; dead-code elimination removes that block, but its two
+    String temporaries stay registered in the frame enclosing the match, which releases them on
+    every path although nothing ever writes them (both outcomes of the discriminant switch) -/
+theorem dead_guard_drops_uninit_on_pinned_tree :
+    (runN Frozen.wDeadGuard (fun _ => 0) 14 (entryLabel Frozen.wDeadGuard)
+      (initC Frozen.wDeadGuard (fun _ => 0))).failsWith .dropUninit = true
+    ∧ (runN Frozen.wDeadGuard (fun _ => 1) 14 (entryLabel Frozen.wDeadGuard)
+      (initC Frozen.wDeadGuard (fun _ => 0))).failsWith .dropUninit = true := by decide +kernel
+
+theorem dead_guard_rejected_on_pinned_tree : ∀ cert, ownCheck Frozen.wDeadGuard cert = false :=
+  rejected_of_failing_run _ _ _ _ _ dead_guard_drops_uninit_on_pinned_tree.1
 
 end RotoV.C03
